@@ -33,7 +33,10 @@ func init() {
 		Rule{ID: "C17.f", Explain: "nil/length safety of the key-proof verifier (same validated-before-use typestate as C08, entry point VerifyProof) and: every slice field of every proof type is length-checked and every one of its elements structure-checked by the corresponding structure check (a loop over that very field).",
 			Run: func(P *Program, R *Report) { keyproofSafetyRule(P, R) }},
 		Rule{ID: "C17.h", Explain: "good keys are accepted: VerifyProof rejects for the specified reasons only - a missing component, a group prime that is too SHORT or not a safe prime, a failed structure check, a group that cannot be built, a challenge mismatch - and otherwise returns the verdict of the quasi-safe-prime-product proof; any other rejecting branch (e.g. an upper bound on the group prime, which the prover legitimately exceeds when it uses a precomputed prime) is reported.",
-			Run: func(P *Program, R *Report) { validKeyRejectionsRule(P, R) }},
+			Run: func(P *Program, R *Report) {
+				validKeyRejectionsRule(P, R)
+				treeRejectionsRule(P, R, "C17.h", "keyproof", "the key-proof verification call tree")
+			}},
 		Rule{ID: "C17.g", Explain: "CanProve tests the residue conditions and safe primality (C16.f).",
 			Run: func(P *Program, R *Report) { canProveRule(P, R, "C17.g") }},
 	)
